@@ -467,3 +467,22 @@ Proof.
   intros d h o s v. repeat apply conj; try reflexivity.
   intros e He. unfold encode. rewrite He. reflexivity.
 Qed.
+
+(* comparing (address, type) pairs is the model's [enc]: with an injective naming of the cells the
+   address-only checker coincides with it *)
+Lemma enc_list_ext : forall (f g : list nat -> val -> out) l ci,
+  (forall c x, f c x = g c x) -> enc_list f ci l = enc_list g ci l.
+Proof.
+  intros f g l. induction l as [|x r IH]; intros ci H; simpl; [reflexivity|].
+  rewrite H. destruct (g ci x); try reflexivity. apply IH. exact H.
+Qed.
+
+Lemma enc_addr_id_lemma : forall d h o ci v, enc_addr (fun a => a) d h o ci v = enc d h o ci v.
+Proof.
+  induction d as [|d IH]; intros h o ci v; simpl; [reflexivity|].
+  destruct v; try reflexivity; try apply IH.
+  - destruct (chk o && cont_kind (cell h a)); [|apply IH].
+    unfold push_addr, push. destruct (existsb (Nat.eqb a) ci); [reflexivity|]. rewrite IH. reflexivity.
+  - apply enc_list_ext. intros; apply IH.
+  - apply enc_list_ext. intros; apply IH.
+Qed.
